@@ -115,3 +115,26 @@ package keeper
 //@   modifies world(goCtx)
 //@   ensures relayer_allowed: err == nil && k.ClientV2Keeper != nil ==> allowed
 //@   ensures not_allowed_unchanged: k.ClientV2Keeper != nil && !allowed ==> err != nil && world(goCtx) == old(world(goCtx))
+
+// ---- channel handshake handlers (C12): the write that opens a channel end happens only after the keeper's
+// verification step accepted the message in the same state
+
+//@ contract (*Keeper).ChannelOpenAck
+//@   let ch = nth(k.ChannelKeeper.GetChannel(goCtx, msg.PortId, msg.ChannelId), 0)
+//@   let found = nth(k.ChannelKeeper.GetChannel(goCtx, msg.PortId, msg.ChannelId), 1)
+//@   let conn = connOf(world(goCtx), ch.ConnectionHops[0])
+//@   let expected = channeltypes.NewChannel(channeltypes.TRYOPEN, ch.Ordering, channeltypes.NewCounterparty(msg.PortId, msg.ChannelId), strings1(conn.Counterparty.ConnectionId), msg.CounterpartyVersion)
+//@   modifies world(goCtx)
+//@   ensures from_init_only: err == nil ==> found && ch.State == channeltypes.INIT
+//@   ensures counterparty_proven: err == nil ==> ProvenChannelState(conn, box(msg.ProofHeight), ch.Counterparty.PortId, msg.CounterpartyChannelId, expected)
+//@   ensures wrong_state_unchanged: !(found && ch.State == channeltypes.INIT) ==> err != nil && world(goCtx) == old(world(goCtx))
+
+//@ contract (*Keeper).ChannelOpenConfirm
+//@   let ch = nth(k.ChannelKeeper.GetChannel(goCtx, msg.PortId, msg.ChannelId), 0)
+//@   let found = nth(k.ChannelKeeper.GetChannel(goCtx, msg.PortId, msg.ChannelId), 1)
+//@   let conn = connOf(world(goCtx), ch.ConnectionHops[0])
+//@   let expected = channeltypes.NewChannel(channeltypes.OPEN, ch.Ordering, channeltypes.NewCounterparty(msg.PortId, msg.ChannelId), strings1(conn.Counterparty.ConnectionId), ch.Version)
+//@   modifies world(goCtx)
+//@   ensures from_tryopen_only: err == nil ==> found && ch.State == channeltypes.TRYOPEN
+//@   ensures counterparty_proven: err == nil ==> ProvenChannelState(conn, box(msg.ProofHeight), ch.Counterparty.PortId, ch.Counterparty.ChannelId, expected)
+//@   ensures wrong_state_unchanged: !(found && ch.State == channeltypes.TRYOPEN) ==> err != nil && world(goCtx) == old(world(goCtx))
